@@ -189,6 +189,11 @@ Proof.
     pose proof (index_total g HEAD v). destruct (c_index g HEAD v); auto; congruence.
   - (* x in c *) rewrite andb_true_r. apply negb_true_iff.
     pose proof (contains_total g HEAD v). destruct (c_contains g HEAD v); auto; congruence.
+  - (* n3() *) pose proof (iter_total g HEAD) as Ht. unfold c_iter in *.
+    destruct (cyclic_iter g HEAD).
+    + rewrite (surjective_pairing (c_items g HEAD)), (Hc eq_refl). reflexivity.
+    + rewrite andb_true_r. apply negb_true_iff.
+      destruct (c_items g HEAD) as [ys e]. destruct e; simpl in *; congruence.
 Qed.
 
 Lemma r_run_model g : forall ops, forallb is_read ops = true ->
@@ -209,4 +214,55 @@ Proof.
   destruct (cyclic_f true (fuel_of g) g head [head]) as [[|]|] eqn:E; try discriminate.
   assert (Hc : snd (c_items g head) = ICycle) by exact (cyc_items g _ _ [head] E).
   unfold c_iter, c_len. destruct (c_items g head) as [ys e]. cbn [snd] in Hc. rewrite Hc. auto.
+Qed.
+
+(* the cycle test of the specification itself never runs out of fuel *)
+Lemma cyclic_no_hang stop g head : forall fuel c seen,
+  NoDup seen -> incl seen (head :: map obj g) ->
+  (length (head :: map obj g) < fuel + length seen)%nat ->
+  cyclic_f stop fuel g c seen <> None.
+Proof.
+  induction fuel as [|f IH]; intros c seen Hn Hi Hl.
+  - exfalso. apply NoDup_incl_length in Hi; auto. lia.
+  - cbn [cyclic_f]. destruct (stop && negb (truthy c)); [discriminate|].
+    destruct (g_value g c REST) as [r|] eqn:E; [|discriminate].
+    destruct (memb N.eqb r seen) eqn:Em; [discriminate|].
+    apply IH.
+    + constructor; auto. now apply (memb_false _ N.eqb_spec).
+    + intros y [<-|Hy]; [|auto]. right. apply value_in in E. destruct E as [t [Ht <-]]. now apply in_map.
+    + cbn [length] in *. lia.
+Qed.
+
+Lemma cyclic_f_total stop g head : cyclic_f stop (fuel_of g) g head [head] <> None.
+Proof.
+  apply (cyclic_no_hang stop g head).
+  - constructor; [simpl; tauto|constructor].
+  - intros y [<-|[]]. now left.
+  - unfold fuel_of. cbn [length]. rewrite map_length. lia.
+Qed.
+
+(* list(c) / len(c) raise exactly when the walk revisits a node *)
+Lemma iter_raises_iff_cyclic g head :
+  cyclic_iter g head = true <-> c_iter g head = RExc ValueError.
+Proof.
+  split; [intros H; apply (cyclic_reads_raise g head H)|].
+  unfold cyclic_iter, c_iter, c_items. pose proof (cyclic_f_total true g head) as Ht.
+  destruct (cyclic_f true (fuel_of g) g head [head]) as [[|]|] eqn:E;
+    [intros _; reflexivity| |exfalso; apply Ht; reflexivity].
+  intros H. exfalso.
+  assert (Hn : forall fuel c seen, cyclic_f true fuel g c seen = Some false ->
+               snd (items_f fuel g (Some c) (map Some seen)) <> ICycle).
+  { clear. induction fuel as [|f IH]; intros c seen; [discriminate|].
+    cbn [cyclic_f items_f]. destruct (truthy c); cbn [negb andb]; [|simpl; discriminate].
+    destruct (g_value g c REST) as [r|] eqn:Er.
+    - rewrite memb_some. destruct (memb N.eqb r seen); [discriminate|].
+      intros H. apply IH in H. change (Some r :: map Some seen) with (map Some (r :: seen)).
+      destruct (items_f f g (Some r) (map Some (r :: seen))) as [ys e].
+      destruct (g_value g c FIRST); simpl in *; auto.
+    - intros _. assert (Hm : memb (opt_eqb N.eqb) (@None term) (map (@Some term) seen) = false).
+      { clear. induction seen; simpl; auto. }
+      rewrite Hm. destruct f; simpl; destruct (g_value g c FIRST); simpl; discriminate. }
+  specialize (Hn _ _ _ E). change (map Some [head]) with [Some head] in Hn.
+  destruct (items_f (fuel_of g) g (Some head) [Some head]) as [ys e]. cbn [snd] in Hn.
+  destruct e; simpl in H; try discriminate. congruence.
 Qed.
